@@ -109,7 +109,7 @@ def leaf(job, nodes, value):
 
 # ----------------------------------------------------------------------------- scope
 
-VALUES = [0, 1, 2, 1.0, 2.5, -1, True, None, "a", "b", "ab", [1, 2], [1, 2.0], [], {"n": 1}, {"n": 2.0, "m": "a"}]
+VALUES = [0, 1, 2, 1.0, 2.5, -1, True, None, "a", "b", "ab", [1, 2], [1, 2.0], [], {"n": 1}, {"n": 2.0, "m": "a"}, -1.0, 0.0, -2, -2.0]
 SP_KEYS = ["a", "b", "c"]
 
 
@@ -373,7 +373,7 @@ def run(tier="quick", seed=0):
     ix = _SearchIndexer({"a": {"sp": {"v": False}}, "b": {"sp": {"v": 0}}})
     if set(ix.find({"sp.v": {"$type": "bool"}})) != {"a"}:
         failures.append({"key": "find:$type-bool-conflation", "description": "known finding F3", "script": ""})
-    return {"scope": "corpora of 0-6 jobs over 16 typed values x 3 sp keys / 2 doc keys; random filters of the documented grammar to depth 3 "
+    return {"scope": "corpora of 0-6 jobs over 20 typed values (incl. -1 / -1.0, -2 / -2.0, 0 / 0.0) x 3 sp keys / 2 doc keys; random filters of the documented grammar to depth 3 "
                      "(operators as suffix or nested mapping, sp./doc./no prefix); 180 filters combining $or / $and / $not with sibling conditions on a 12-job grid; corpora that trigger known finding F3 and mappings that spell one key twice (b and sp.b) are excluded",
             "evaluations": evals, "distinct_nontrivial": len(distinct), "rule": "a case is one (corpus, filter) pair; non-trivial = the filter selects a non-empty proper subset; distinct by filter",
             "samples": samples, "failures": failures}
